@@ -88,6 +88,7 @@ class Runner:
         self.env = Environment() if env is None else env
         self.lines = []
         self.notes = []          # oracle-only records (never compared with the model)
+        self.raised = None
         self._granted, self._reqs = set(), {}      # note_fcfs: requests seen granted; requests per (resource, kind) in creation order
         self.slots = {}
         self.labels = {}
@@ -400,6 +401,7 @@ class Runner:
                     break
                 except BaseException as x:
                     self.lines.append(f'X {self.fmt_exc(x)} @{self.now()}')
+                    self.raised = x          # oracle-only: the exception object that came out of step()
                     break
                 self.snap()
                 self.note_heads()
@@ -429,7 +431,12 @@ class Runner:
                             self.lines.append('R skip'); continue
                         ev = self.slots[seg[1]]
                         was_done = ev.processed
-                        v = env.run(until=ev)
+                        try:
+                            v = env.run(until=ev)
+                        except BaseException:
+                            self.hook('until-return', ev, was_done, False)
+                            raise
+                        self.hook('until-return', ev, was_done, True)
                         self.notes.append(('until-event', ev.processed, getattr(ev, '_ok', None), v is ev._value or v == ev._value, ev.defused, self.lab(ev), was_done))
                     else: v = env.run()
                     self.lines.append(f'R {self.fmt_val(v)} @{self.now()}')
